@@ -49,6 +49,25 @@ Definition py_index (n : nat) (z : Z) : option nat :=
   let z' := if (z <? 0)%Z then (z + Z.of_nat n)%Z else z in
   if ((0 <=? z') && (z' <? Z.of_nat n))%Z then Some (Z.to_nat z') else None.
 
+(* CPython slice.indices(n) followed by range(): the selected positions *)
+Definition py_slice_positions (start stop step : option Z) (n : nat) : res (list nat) :=
+  let nz := Z.of_nat n in
+  let st := match step with Some s => s | None => 1%Z end in
+  if (st =? 0)%Z then Err else
+  let lower := if (st <? 0)%Z then (-1)%Z else 0%Z in
+  let upper := if (st <? 0)%Z then (nz - 1)%Z else nz in
+  let clamp (o : option Z) (dflt : Z) :=
+    match o with
+    | None => dflt
+    | Some v => if (v <? 0)%Z then Z.max (v + nz) lower else Z.min v upper
+    end in
+  let a := clamp start (if (st <? 0)%Z then upper else lower) in
+  let b := clamp stop (if (st <? 0)%Z then lower else upper) in
+  let cnt := if (st >? 0)%Z then Z.max 0 ((b - a + st - 1) / st)
+             else Z.max 0 ((a - b - st - 1) / (- st)) in
+  Ok (map (fun k => Z.to_nat (a + Z.of_nat k * st)) (seq 0 (Z.to_nat cnt))).
+
+
 Definition spec_getitem_int (rs : lrows) (z : Z) : res lrow :=
   match py_index (length rs) z with Some i => Ok (nth i rs None) | None => Err end.
 
@@ -101,3 +120,97 @@ Definition spec_pop_fields (L : lcol) (fields : list string) : lcol :=
 (* flat values cut by the row lengths *)
 Definition spec_cut_flat (L : lcol) (flat : list val) : list (list val) := cut_by (lrow_lengths L) flat.
 Definition spec_fill (L : lcol) (vs : list val) : list (list val) := map2 (fun v n => repeat v n) vs (lrow_lengths L).
+
+(* ---------- C05: the column-level specs, as results (Err where a Python list / numpy raises) ---------- *)
+Definition on_rows (L : lcol) (f : lrows -> lrows) : lcol := lcol_of (lsch L) (f (rows_of L)).
+
+Definition spec_col_getitem_int (L : lcol) (z : Z) : res lrow := spec_getitem_int (rows_of L) z.
+Definition spec_col_slice (L : lcol) (a b s : option Z) : res lcol :=
+  res_map (fun pos => on_rows L (fun rs => spec_select rs pos)) (py_slice_positions a b s (lcol_nrows L)).
+Definition spec_col_mask (L : lcol) (m : list bool) : res lcol :=
+  if length m =? lcol_nrows L then Ok (on_rows L (fun rs => spec_mask rs m)) else Err.
+Definition spec_col_idx (L : lcol) (ix : list Z) : res lcol :=
+  match py_indices (lcol_nrows L) ix with
+  | Some pos => Ok (on_rows L (fun rs => spec_select rs pos))
+  | None => Err
+  end.
+(* take: allow_fill=false -> negative positions count from the end; allow_fill=true -> -1 is the
+   fill row (None = NA), anything below -1 is an error *)
+Definition lrow_rect (r : lrow) : bool :=
+  match r with None => true | Some fs => all_equal_nat (map (@length val) fs) end.
+Definition spec_col_take (L : lcol) (ix : list Z) (allow_fill : bool) (fill : lrow) : res lcol :=
+  let n := lcol_nrows L in
+  if existsb (fun z => (Z.of_nat n <=? z)%Z) ix then Err else
+  if allow_fill then
+    if existsb (fun z => (z <? -1)%Z) ix then Err else
+    if existsb (fun z => (z <? 0)%Z) ix && negb (lrow_rect fill) then Err else
+    Ok (on_rows L (fun rs => spec_take_fill rs ix fill))
+  else spec_col_idx L ix.
+Definition spec_col_concat (Ls : list lcol) : res lcol :=
+  match Ls with
+  | [] => Err
+  | L0 :: _ => Ok (lcol_of (lsch L0) (concat (map rows_of Ls)))
+  end.
+Definition spec_col_dropna (L : lcol) : lcol := on_rows L spec_dropna.
+
+(* assignment: the target positions of a key, in the order a Python list / numpy consumes values *)
+Inductive akey := AInt (z : Z) | ASlice (a b s : option Z) | AMask (m : list bool) | AIdx (ix : list Z).
+Inductive aval := ARow (r : lrow) | ARows (rs : lrows).
+Definition spec_targets (n : nat) (k : akey) : res (list nat) :=
+  match k with
+  | AInt z => match py_index n z with Some i => Ok [i] | None => Err end
+  | ASlice a b s => py_slice_positions a b s n
+  | AMask m => if length m =? n then Ok (true_positions m) else Err
+  | AIdx ix => match py_indices n ix with Some pos => Ok pos | None => Err end
+  end.
+Definition spec_col_setitem (L : lcol) (k : akey) (v : aval) : res lcol :=
+  match spec_targets (lcol_nrows L) k with
+  | Err => Err
+  | Ok ts =>
+      match ts with
+      | [] => Ok L                                        (* assigning to nothing does nothing *)
+      | _ =>
+        let vs := match v with ARow r => repeat r (length ts) | ARows rs => rs end in
+        if negb (length vs =? length ts) then Err else
+        if negb (forallb lrow_rect vs) then Err else
+        if negb (forallb (fun r => match r with Some fs => length fs =? length (lsch L) | None => true end) vs) then Err else
+        Ok (on_rows L (fun rs => list_update rs ts vs))
+      end
+  end.
+
+(* ---------- C06: results with their error conditions ---------- *)
+Definition names_of (L : lcol) : list string := map fst (lsch L).
+Definition name_in (names : list string) (x : string) : bool := existsb (String.eqb x) names.
+Fixpoint names_nodup (l : list string) : bool :=
+  match l with [] => true | x :: t => negb (name_in t x) && names_nodup t end.
+
+Definition spec_col_view_fields (L : lcol) (fields : list string) : res lcol :=
+  if negb (names_nodup fields) then Err else
+  if negb (forallb (name_in (names_of L)) fields) then Err else Ok (spec_select_fields L fields).
+
+Definition spec_col_pop_fields (L : lcol) (fields : list string) : res lcol :=
+  if negb (forallb (name_in (names_of L)) fields) then Err else
+  if forallb (name_in fields) (names_of L) then Err else Ok (spec_pop_fields L fields).
+
+Inductive fvalue := FVScalar (v : val) | FVFlat (vs : list val).
+
+(* flat values: exactly flat_length of them, cut by the row lengths *)
+Definition spec_col_set_flat (L : lcol) (nm : string) (ty : ety) (v : fvalue) (keep_dtype : bool) : res lcol :=
+  if keep_dtype && negb (name_in (names_of L) nm) then Err else
+  if keep_dtype && negb (match field_pos (lsch L) nm with Some k => ety_eqb (snd (nth k (lsch L) (nm, ty))) ty | None => false end) then Err else
+  let flat := match v with FVScalar x => repeat x (sum (lrow_lengths L)) | FVFlat vs => vs end in
+  if negb (length flat =? sum (lrow_lengths L)) then Err else
+  Ok (spec_set_field L nm ty (spec_cut_flat L flat)).
+
+(* per-row lists: one list per row with exactly that row's length (a missing row takes none) *)
+Definition spec_col_set_lists (L : lcol) (nm : string) (ty : ety) (ls : list (list val)) (keep_dtype : bool) : res lcol :=
+  if keep_dtype && negb (name_in (names_of L) nm) then Err else
+  if keep_dtype && negb (match field_pos (lsch L) nm with Some k => ety_eqb (snd (nth k (lsch L) (nm, ty))) ty | None => false end) then Err else
+  if negb (length ls =? lcol_nrows L) then Err else
+  if negb (list_eqb Nat.eqb (map (@length val) ls) (lrow_lengths L)) then Err else
+  Ok (spec_set_field L nm ty ls).
+
+Definition spec_col_fill (L : lcol) (nm : string) (ty : ety) (vs : list val) (keep_dtype : bool) : res lcol :=
+  if keep_dtype && negb (name_in (names_of L) nm) then Err else
+  if negb (length vs =? lcol_nrows L) then Err else
+  Ok (spec_set_field L nm ty (spec_fill L vs)).
